@@ -1339,7 +1339,10 @@ def judge_c18(case, lab):
                                    "explain": "explainable"}[op])) for r in targets}
             if id(g.root) not in objs:
                 res.bad("request-not-issued", "%s of the root was not issued as a %s" % (op, RT[op].__name__))
-            has_coalesce = any(nd["k"] == "coalesce" for nd in case["nodes"])
+            # coalesce: a member whose validation fails is never evaluated; lazy iterables (Map, Iter)
+            # below the root are evaluated only if and when their consumer iterates them
+            has_coalesce = any(nd["k"] == "coalesce" for nd in case["nodes"]) or any(
+                nd["k"] == "map" or (nd["k"] == "coll" and nd["c"] == "iter") for nd in case["nodes"][:-1])
             if op == "evaluate" and not has_coalesce:
                 missing = [n for n in visited if n in g.obj and id(g.obj[n]) not in objs and not _is_inlined(case, n)]
                 if missing and plain["evaluate"]["ok"]:
